@@ -11,6 +11,12 @@ Gaussian-integer (probabilities, collapse) or dyadic normalised (sampling) data 
 is compared EXACTLY with the model evaluated by vm_compute inside Coq, and with the Coq
 specification (Born marginal, projection, `explainsb`).  The random draws of the implementation
 (np.random.choice, np.random.shuffle, sample_frequencies) are recorded and fed to the model.
+
+Round-5 streams (harness/c03_g.py, families G / C / D): near_exact + near_float = collapsing measurements with outcome
+probabilities 1 - 10^-k and 10^-k (both outcomes forced, sv and dm, entangled partners) against the exact projection;
+routes = every view incl. the per-gate handles for every construction route of a result object x cyclic / non-ascending
+register layouts (model C03/ModelHandles.v, theorems C03/PropsHandles.v).  views / collapse / symbols / repeated also
+draw cyclic 3-/4-qubit orders deterministically, views every third history as a density-matrix circuit.
 """
 STATIC = ["C03/Props", "C03/Check", "C03/PropsHandles"]
 import collections
@@ -1890,7 +1896,8 @@ def main(run):
     run.trusted += ["Coq 8.16.1 kernel, vm_compute",
                     "numpy semantics of reshape/transpose/sum(axis)/einsum('abab->a')/expand_dims/concatenate as transcribed in C03/ModelProbs.v and C03/ModelCollapse.v (tensors as functions on bit lists)",
                     "harness/c03.py: serialisation of inputs/outputs, recording of the implementation's draws"]
-    run.assumptions += ["exact arithmetic (float rounding not modelled); the state-machine theorems are for bit-flip probabilities p = 0 (p > 0 is covered at test level by the bitflip part)",
+    run.assumptions += ["near_exact: the projection is exact (Coq, Gaussian integers); its float normalisation is compared at 1e-14 (np.abs of a general Gaussian integer is not exact); near_float: 1e-12 (test)",
+                        "exact arithmetic (float rounding not modelled); the state-machine theorems are for bit-flip probabilities p = 0 (p > 0 is covered at test level by the bitflip part)",
                         "np.random.choice / np.random.shuffle / sample_frequencies are oracles: only their contract (count, support, permutation) is assumed, and checked on every draw"]
     names = static_obligations(run, "C03/Props")
     if run.tier == "thorough":
